@@ -17,8 +17,40 @@ DRIVERS = {"pairs-independence": ("harness.checks.c14", "pair_only", "PairTrace"
 
 
 def family(rng, k):
+    from ..e2e import uniform_fm
+    if k % 3 == 1:
+        # strong uniform flow across cells of different size, several release times: a particle's grid spacing must be its own
+        base = base_scenario(rng, hasscal=False, ntimes=3, nsteps=rng.randrange(6, 9), layout="sparse", ops=rng.choice([1, 2]), nkill=0, nfreeze=0,
+                             nland=0, varmetric=True, fm=uniform_fm(rng), dt=64, cont=False, allow_subgrid=False)
+        farms = [r["id"] for r in base["rows"]]
+        from ..world import node
+        u, v = node(base["fm"], 0, 1, 0, 0, 0), node(base["fm"], 0, 1, 0, 0, 1)
+        imax, jmax = base["imax"], base["jmax"]
+        # put the change of cell size just downstream of the release positions, so that every particle crosses it early
+        if abs(u) >= abs(v):
+            ci = imax // 2
+            base["dxarr"] = [[128 if i < ci else 256 for i in range(imax)] for _ in range(jmax)]
+            base["dyarr"] = [[128] * imax for _ in range(jmax)]
+            for r in base["rows"]:
+                r["xf"] = ci - 0.25 - (0.5 if u > 0 else -0.5) - (0.25 if u > 0 else -0.75) * 0 + (0.0 if u > 0 else 0.0)
+                r["xf"] = (ci - 0.75) if u > 0 else (ci + 0.25)
+        else:
+            cj = jmax // 2
+            base["dyarr"] = [[128 if j < cj else 256 for _ in range(imax)] for j in range(jmax)]
+            base["dxarr"] = [[128] * imax for _ in range(jmax)]
+            for r in base["rows"]:
+                r["yf"] = (cj - 0.75) if v > 0 else (cj + 0.25)
+        for r in base["rows"]:
+            r["mult"] = 1
+            r["zf"] = 5.0
+        base["killfarm"] = []
+        variants = [dict(kind="same", sc=base)]
+        from ..pairs import without_rows as _wr
+        for f in farms[1:3]:
+            variants.append(dict(kind="subset", sc=_wr(base, {f}), deleted=[f]))
+        return dict(base=base, variants=variants, cls=dict(rev=base["rev"], layout="sparse", wfield=False, kills=0, varmetric=True))
     base = base_scenario(rng, hasscal=True, ntimes=rng.choice([2, 3]), nsteps=rng.randrange(4, 9), layout="sparse" if rng.random() < 0.8 else "dense",
-                         ops=rng.choice([1, 2, 2, 3]), nkill=0, nfreeze=0, nland=rng.randrange(0, 5),
+                         ops=rng.choice([1, 2, 2, 3]), nkill=0, nfreeze=0, nland=rng.randrange(0, 5), varmetric=rng.random() < 0.4,
                          fm=dict(a=rng.randrange(0, 6), b=rng.randrange(0, 6), c=rng.randrange(5, 40), d=rng.randrange(0, 20), e=rng.randrange(0, 3)))
     base["H"] = [[rng.choice([40, 80]) for _ in range(base["imax"])] for _ in range(base["jmax"])]
     for r in base["rows"]:
